@@ -858,6 +858,11 @@ static int32_t tls13ParseHandshakeMessage(ssl_t *ssl,
     rc = psParseTlsHandshakeHeader(&pb, &type, &hsMsgLen);
     if (rc == 0)
     {
+        /* Fewer than TLS_HS_HDR_LEN bytes left in the record. Reassembly
+           of a split handshake header is not supported; returning success
+           here without consuming anything made the caller loop forever. */
+        ssl->err = SSL_ALERT_DECODE_ERROR;
+        rc = MATRIXSSL_ERROR;
         goto exit;
     }
 # ifdef DEBUG_TLS_1_3_DECODE
